@@ -15,7 +15,7 @@ ids = [i for i in ids if os.path.exists(os.path.join(V, "seeded", i, "patch.diff
 
 
 def one(pid):
-    p = subprocess.run(["/venv/bin/python", os.path.join(V, "harness", "seedtest.py"), os.path.join(V, "seeded", pid)] + (["--skip-baseline"] if "--skip-baseline" in sys.argv else []),
+    p = subprocess.run(["/venv/bin/python", os.path.join(V, "harness", "seedtest.py"), os.path.join(V, "seeded", pid)] + (["--skip-baseline"] if "--skip-baseline" in sys.argv else []) + (["--skip-demo"] if "--skip-demo" in sys.argv else []),
                        stdout=subprocess.PIPE, stderr=subprocess.STDOUT, text=True)
     try:
         res = json.loads(p.stdout[p.stdout.index("{"):])
